@@ -71,10 +71,9 @@ ASSUMPTIONS = ["a transport send is a sequence of atomic partial writes, each fo
 KIND_RAW, KIND_CLIENT, KIND_CLIENT_FAIR, KIND_ENDPOINT, KIND_SERVER, KIND_SERVER_FAIR, KIND_TLS, KIND_TLS_FAIR, \
     KIND_THREAD_TCP, KIND_THREAD_UDP = range(10)
 A_START, A_OK, A_FAIL, A_CANCEL, A_TICK, A_SETTLE = range(6)
-# Objects whose lock is the real FairLock are compared with the model after every single loop iteration.  With the
-# asyncio backend's default lock (asyncio.Lock, CPython, which lets a newcomer in when every queued waiter is already
-# cancelled) the comparison is made at quiescence only: the acquisition order is the same, the iteration at which it
-# happens is not.
+# Every object whose lock is modelled (the real FairLock: Conc/FairLock.v; CPython's asyncio.Lock handed out by the asyncio
+# backend: Conc/AsyncioLock.v) is compared with the model after every single loop iteration.  Only the TLS transport over
+# asyncio.Lock (kind 6; Conc/TlsSend.v is written over FairLock) is still compared at quiescence.
 TICK_KINDS = (0, 1, 2, 3, 4, 5, 7)
 
 _SOCK = None
